@@ -2,8 +2,19 @@ import shard_common
 
 
 def run(ctx):
+    quick = ctx.tier == "quick"
+    # crash-atomicity of one entry's application at the storage-engine level: a crash image is taken at every
+    # engine batch commit of TLC-chosen request sequences (OxiaDb family, routecheck crashpoints) and must be
+    # the fold of entries 0..c, c = the commit offset stored in the image; replay of c+1.. gives the whole log
+    import c06
+    c06.crashpoints_standalone(ctx, quick)
     shard_common.run(ctx, "C07")
 
 
 def replay(ctx, path):
+    import json
+    d = json.load(open(path))
+    if isinstance(d, dict) and d.get("kind") == "crash":
+        import c06
+        return c06.replay(ctx, path)
     shard_common.replay_file(ctx, "C07", path)
